@@ -1,4 +1,5 @@
 """C14 — tree volume is the volume of the union of node spheres and connecting frusta (spec/VolTree.tla)."""
+from harness import lib
 import math
 from fractions import Fraction
 import numpy as np
@@ -34,12 +35,12 @@ def execute(c):
         xyz = [np.array(p, dtype=np.float64) * u for p in c["xyz"]]
     tree = mk([row[0] for row in t], xyz, [row[2] * u for row in t])
     is_chain = all(sum(1 for row in t if row[0] == i) <= 1 for i in range(len(t)))
-    if c["level"] >= 3 and is_chain and c["cid"] % 5 == 0:
+    if c["level"] >= 3 and is_chain and lib.vid(c) % 5 == 0:
         v = float(extract_feature(tree).get("volume")[0])          # default accuracy; no pair term on a chain
     else:
         v = float(get_volume(tree, accuracy=c["level"]))
     exp = sum(Fraction(p[0], p[1]) for p in c["parts"])
-    return {"ratio": int(max(-2e9, min(2e9, round(v / (math.pi * u ** 3 * float(exp)) * 1e9))))}
+    return {"ratio": int(max(-1e9, min(2e9, round(v / (math.pi * u ** 3 * float(exp)) * 1e9))))}
 
 
 def keyfn(c, o, why):
